@@ -106,6 +106,9 @@ Decl(t) == CASE t \in {"CHandler", "PHandler"} -> {"on_add", "on_world_load"}
              [] t = "CLoadOnly" -> {"on_world_load"}
              [] OTHER           -> {}
 Prio(t) == IF t = "PLate" THEN 5 ELSE 0
+\* Inheritance among the processor classes: PADerived is a subclass of PA, PUpdSub of the default
+\* OnUpdateProcessor.  It has no operational role: a world keeps one processor per EXACT type (AddProcessor below
+\* compares type names), so a base and a derived processor coexist, whichever is listed first.
 DefaultTypes == <<"OnUpdateProcessor", "CoroutineProcessor">>
 
 AutoMark == <<"auto", 0>>       \* entity without "id"; explicit ids are <<"s", k>> (a string: 0 is "", 1 "hero", 2 "1"),
